@@ -157,7 +157,7 @@ fn wraps(isn: u32, len: usize) -> bool {
 impl Prop for C09 {
     type Scn = Scn;
     const ID: &'static str = "C09";
-    const ENGINE: &'static str = "netsim";
+    const ENGINE: &'static str = crate::NETSIM_ENGINE;
 
     fn rule() -> &'static str {
         "one evaluation = one delivery history (segmentation x ISN x arrival permutation x direction interleaving) of one generated HTTP/1.x or HTTP/2 exchange through the HTTP or unified analyzer, compared with the in-order one-segment-per-direction delivery at ISN 1000/5000; non-trivial = the reference reports a request or a response AND (>= 3 data segments OR out-of-order arrival OR sequence wrap inside a stream); distinct = distinct event-log hash"
@@ -174,12 +174,14 @@ impl Prop for C09 {
             let cont = r.chance(1, 6);
             // one HTTP/2 exchange in eight is busy: 90..300 further streams opened behind the first message
             let busy = if r.chance(1, 8) { r.urange(90, 300) } else { 0 };
-            let (rq, st) = http2::connection_start(r, &http2::Opts { request: true, hostile: http2::Hostile::None, fancy_headers: false, odd_order: false, self_ref, continuation: cont, big_frame: None, announce_max_frame: false, huge_block: 0, extra_streams: busy });
+            let (rq, st) = http2::connection_start(r, &http2::Opts { request: true, hostile: http2::Hostile::None, fancy_headers: false, odd_order: false, self_ref, continuation: cont, big_frame: None, announce_max_frame: false, huge_block: 0, extra_streams: busy, leading_frames: 0 });
             let busy_s = if r.chance(1, 2) { busy } else { 0 };
-            let (rs, st2) = http2::connection_start(r, &http2::Opts { request: false, hostile: http2::Hostile::None, fancy_headers: false, odd_order: false, self_ref: false, continuation: false, big_frame: None, announce_max_frame: false, huge_block: 0, extra_streams: busy_s });
+            let (rs, st2) = http2::connection_start(r, &http2::Opts { request: false, hostile: http2::Hostile::None, fancy_headers: false, odd_order: false, self_ref: false, continuation: false, big_frame: None, announce_max_frame: false, huge_block: 0, extra_streams: busy_s, leading_frames: 0 });
             (rq, st.head_end, rs, st2.head_end)
         } else {
             let (rq, rs) = if r.chance(1, 10) { (http1::exotic_request(r), http1::exotic_response(r)) } else { (http1::request(r, 300), http1::response(r, 400)) };
+            // one HTTP/1 exchange in eight uses bare-LF line ends in its heads and bodies that contain CRLF CRLF
+            let (rq, rs) = if r.chance(1, 8) { (http1::lf_variant(r, rq), http1::lf_variant(r, rs)) } else { (rq, rs) };
             (rq.bytes, rq.head_len, rs.bytes, rs.head_len)
         };
         let v6 = r.chance(1, 5);
